@@ -37,6 +37,10 @@ def main(argv=None):
                 # label the obligations of the additional build configurations
                 chk.obligations[n0:] = [(r, "%s [%s]" % (d, cfg), ok, nt) for r, d, ok, nt in chk.obligations[n0:]]
         common.DEFAULT_CONFIG[0] = "py3"
+        if getattr(chk, "deferred", None):
+            # a formula rule could not decide: the other rules have run first, so that their
+            # findings (if any) are reported; without findings this is an analysis error
+            raise AnalysisError(chk.deferred[0])
         if len(cfgs) > 1:
             chk.configs = cfgs
         rc = chk.finish()
